@@ -1,9 +1,142 @@
 (* Properties_C25.v — C25: header blocks are parsed into exactly their fields.
-   Statements only; proofs live in HdrparseProofs.v. *)
+   Statements only; proofs live in HdrparseProofs.v.
+   Model side: h_block_fields (NUL test + field loop + HttpHeaderEntry::parse), h_parse (= plus the
+   Content-Length / Transfer-Encoding treatment), h_pack.  Reference side: ref_fields = ref_lines ->
+   ref_groups -> ref_process (ref_line_ok, ref_group_text, ref_split, canon_name). *)
 Require Import SquidV.Bytes SquidV.ClenModel SquidV.HdrparseModel SquidV.HdrparseProofs.
+Require Import SquidV.gen.HdrTable_gen.
 Local Open Scope N_scope.
 
+(* --- the field loop computes exactly the reference reading of the block, accept and reject alike,
+       for ALL byte strings, both parser modes, request and reply owner --- *)
+Theorem C25_field_loop_is_reference : forall relaxed req block,
+  h_block_fields relaxed req block = ref_fields relaxed req block.
+Proof. exact block_fields_is_reference. Qed.
+Print Assumptions C25_field_loop_is_reference.
+
+(* --- the pieces of the reference, declaratively --- *)
+(* lines: the LF-free pieces that re-join to the block (exists iff the block is empty or LF-terminated) *)
+Theorem C25_lines_exact : forall block ls,
+  ref_lines block = Some ls <-> (block = join_lines ls /\ Forall nolf ls).
+Proof. exact ref_lines_exact. Qed.
+Print Assumptions C25_lines_exact.
+
+(* groups: a partition of the lines, in order; inside a group every line but the first starts with SP/HT;
+   the first line of every later group does not; the first group starts with the first line *)
+Theorem C25_groups_exact : forall ls,
+  concat (ref_groups ls) = ls /\ Forall group_shape (ref_groups ls) /\ heads_ok (ref_groups ls).
+Proof. exact groups_exact. Qed.
+Print Assumptions C25_groups_exact.
+
+(* values: surrounding white space removed, nothing else *)
+Theorem C25_value_trimmed_exact : forall l, exists a b, l = a ++ ref_trim l ++ b /\
+  forallb ref_ows a = true /\ forallb ref_ows b = true /\
+  match ref_trim l with c :: _ => ref_ows c = false | [] => True end /\
+  last_is ref_ows (ref_trim l) = false.
+Proof. exact ref_trim_exact. Qed.
+Print Assumptions C25_value_trimmed_exact.
+
+(* names: the registered spelling and id if the name is registered (ignoring ASCII case), else as written *)
+Theorem C25_name_canonical : forall name,
+  ci_eqb name (snd (canon_name name)) = true /\
+  ((exists fl, In (fst (canon_name name), snd (canon_name name), fl) hdr_table) \/
+   (canon_name name = (hdr_OTHER, name) /\ forall id nm fl, In (id, nm, fl) hdr_table -> ci_eqb name nm = false)).
+Proof. exact canon_name_exact. Qed.
+Print Assumptions C25_name_canonical.
+
+(* HttpHeaderEntry::parse = reference field-line split + table lookup *)
+Theorem C25_entry_parse_is_reference_split : forall req text,
+  h_entry_parse req text =
+  match ref_split req text with
+  | None => None
+  | Some (name, value) =>
+    Some {| he_id := fst (canon_name name); he_name := snd (canon_name name); he_value := c_str value |}
+  end.
+Proof. exact entry_parse_ref. Qed.
+Print Assumptions C25_entry_parse_is_reference_split.
+
+(* --- accepted => the stored entries are the reference fields in order; the only differences are what
+       HttpHeader::parse does to Content-Length (C26) and, for 1xx/204/trailers, Transfer-Encoding --- *)
+Theorem C25_stored_fields_are_the_blocks_fields : forall relaxed req proh block r,
+  h_parse relaxed req proh block = Some r ->
+  exists fs, ref_fields relaxed req block = Some fs /\
+    filter not_fr (hr_entries r) = filter not_fr fs /\
+    (proh = false -> filter not_cl (hr_entries r) = filter not_cl fs) /\
+    (proh = false -> forallb not_cl fs = true -> hr_entries r = fs).
+Proof. exact stored_fields. Qed.
+Print Assumptions C25_stored_fields_are_the_blocks_fields.
+
+(* --- rejections --- *)
 Theorem C25_rejects_nul : forall relaxed req proh block,
   In 0 block -> h_parse relaxed req proh block = None.
 Proof. exact rejects_nul. Qed.
 Print Assumptions C25_rejects_nul.
+
+Theorem C25_rejects_ws_before_colon_in_requests : forall relaxed proh block ls g rn rv,
+  ref_lines block = Some ls -> In g (ref_groups ls) ->
+  ref_before_colon (ref_group_text relaxed g) = Some (rn, rv) -> last_is c_isspace rn = true ->
+  h_parse relaxed true proh block = None.
+Proof. exact rejects_ws_before_colon. Qed.
+Print Assumptions C25_rejects_ws_before_colon_in_requests.
+
+Theorem C25_entry_rejects_ws_before_colon_in_requests : forall name w rest,
+  forallb (fun c => negb (c =? 58)) name = true -> c_isspace w = true ->
+  h_entry_parse true (name ++ w :: 58 :: rest) = None.
+Proof. exact entry_rejects_ws_before_colon. Qed.
+Print Assumptions C25_entry_rejects_ws_before_colon_in_requests.
+
+Theorem C25_rejects_fold_or_bare_cr_in_framing_fields : forall relaxed req proh block r,
+  h_parse relaxed req proh block = Some r ->
+  exists ls, ref_lines block = Some ls /\
+    forall g name value, In g (ref_groups ls) ->
+      (1 <? lenN g) || existsb ref_has_bare_cr g = true ->
+      ref_split req (ref_group_text relaxed g) = Some (name, value) ->
+      fst (canon_name name) <> ID_CL /\ fst (canon_name name) <> ID_TE.
+Proof. exact rejects_suspicious_framing. Qed.
+Print Assumptions C25_rejects_fold_or_bare_cr_in_framing_fields.
+
+Theorem C25_rejects_cr_only_request_line : forall relaxed proh block ls ln,
+  ref_lines block = Some ls -> In ln ls -> forallb is_cr ln = true -> 2 <= lenN ln ->
+  h_parse relaxed true proh block = None.
+Proof. exact rejects_cr_only_line. Qed.
+Print Assumptions C25_rejects_cr_only_request_line.
+
+(* --- the hypotheses are satisfiable / the definitions say what they should on concrete blocks --- *)
+(* "Host: a\r\nX-Y:  b \r\n\tc\r\n\r\n" in a relaxed-mode request: two fields, the second folded *)
+Definition ex_block : bytes :=
+  [72;111;115;116;58;32;97;13;10; 88;45;89;58;32;32;98;32;13;10; 9;99;13;10; 13;10].
+Example C25_ex_accept :
+  option_map (fun r => map (fun e => (he_name e, he_value e)) (hr_entries r)) (h_parse true true false ex_block)
+  = Some [([72;111;115;116], [97]); ([88;45;89], [98;32;13;10;9;99])].
+Proof. vm_compute. reflexivity. Qed.
+Example C25_ex_groups :
+  option_map ref_groups (ref_lines ex_block)
+  = Some [[[72;111;115;116;58;32;97;13]]; [[88;45;89;58;32;32;98;32;13]; [9;99;13]]; [[13]]].
+Proof. vm_compute. reflexivity. Qed.
+(* ids of the framing fields really are those of the table's Content-Length / Transfer-Encoding records *)
+Example C25_ex_framing_ids :
+  canon_name [99;111;110;116;101;110;116;45;108;101;110;103;116;104] = (ID_CL, name_content_length) /\
+  canon_name [116;114;97;110;115;102;101;114;45;69;78;67;79;68;73;78;71] = (ID_TE, name_transfer_encoding) /\
+  ID_CL <> ID_TE /\ ID_CL <> hdr_OTHER.
+Proof. vm_compute. repeat split; discriminate. Qed.
+(* "A : b\r\n\r\n" as a request: white space before the colon (hypotheses of the rejection theorem hold) *)
+Example C25_ex_ws_before_colon :
+  let block := [65;32;58;32;98;13;10;13;10] in
+  exists ls g rn rv, ref_lines block = Some ls /\ In g (ref_groups ls) /\
+    ref_before_colon (ref_group_text true g) = Some (rn, rv) /\ last_is c_isspace rn = true /\
+    h_parse true true false block = None /\ h_parse true false false block <> None.
+Proof.
+  exists [[65;32;58;32;98;13]; [13]], [[65;32;58;32;98;13]], [65;32], [32;98].
+  vm_compute. repeat split; try (left; reflexivity); discriminate.
+Qed.
+(* "Content-Length: 1\r\n 0\r\n\r\n": a folded framing field is rejected, the same fold in X-a is accepted *)
+Example C25_ex_folded_framing :
+  h_parse true false false [67;111;110;116;101;110;116;45;76;101;110;103;116;104;58;32;49;13;10;32;48;13;10;13;10] = None /\
+  h_parse true false false [88;45;97;58;32;49;13;10;32;48;13;10;13;10] <> None.
+Proof. vm_compute. split; [reflexivity|discriminate]. Qed.
+(* "A: b\r\n\r\r\n\r\n": CR-only line; rejected as request *)
+Example C25_ex_cr_only :
+  let block := [65;58;32;98;13;10;13;13;10;13;10] in
+  exists ls ln, ref_lines block = Some ls /\ In ln ls /\ forallb is_cr ln = true /\ 2 <= lenN ln /\
+    h_parse true true false block = None.
+Proof. exists [[65;58;32;98;13]; [13;13]; [13]], [13;13]. vm_compute. repeat split; try discriminate. right; left; reflexivity. Qed.
